@@ -20,6 +20,45 @@ type recipeCtx struct {
 	cone   map[*ssa.Function]bool
 	depth  int
 	opaque bool
+	bind   map[*ssa.Parameter]string // parameters of helpers being inlined -> recipe of the argument
+	inl    int
+}
+
+// inlinable: a small module helper (not an index mutator, no receiver of index type) with exactly one
+// return; its results are rendered in terms of the caller's arguments, so that moving a parse into a
+// helper on one side is not a difference between the appliers.
+func (rc *recipeCtx) inlinable(call *ssa.Call) (*ssa.Function, *ssa.Return) {
+	cal := call.Call.StaticCallee()
+	if cal == nil || cal.Blocks == nil || !rc.p.inModule(cal) || isIndexMutator(cal) || rc.inl > 3 {
+		return nil, nil
+	}
+	if cal.Signature.Recv() != nil || len(cal.Blocks) > 12 {
+		return nil, nil
+	}
+	rets := returnsOf(cal)
+	if len(rets) != 1 {
+		return nil, nil
+	}
+	return cal, rets[0]
+}
+
+func (rc *recipeCtx) inlineResult(call *ssa.Call, cal *ssa.Function, ret *ssa.Return, idx int, d int) string {
+	old := rc.bind
+	nb := map[*ssa.Parameter]string{}
+	for k, v := range old {
+		nb[k] = v
+	}
+	for i, p := range cal.Params {
+		if i < len(call.Call.Args) {
+			nb[p] = rc.recipe(call.Call.Args[i], d+1)
+		}
+	}
+	rc.bind = nb
+	rc.inl++
+	r := rc.recipe(ret.Results[idx], d+1)
+	rc.inl--
+	rc.bind = old
+	return r
 }
 
 func isRecordLike(t types.Type) bool {
@@ -92,8 +131,16 @@ func (rc *recipeCtx) recipe(v ssa.Value, d int) string {
 		if lk, ok := x.Tuple.(*ssa.Lookup); ok && x.Index == 0 {
 			return "Lookup(" + rc.recipe(lk.X, d+1) + "," + rc.recipe(lk.Index, d+1) + ")"
 		}
+		if call, ok := x.Tuple.(*ssa.Call); ok {
+			if cal, ret := rc.inlinable(call); cal != nil && x.Index < len(ret.Results) {
+				return rc.inlineResult(call, cal, ret, x.Index, d)
+			}
+		}
 		return fmt.Sprintf("%s#%d", rc.recipe(x.Tuple, d+1), x.Index)
 	case *ssa.Call:
+		if cal, ret := rc.inlinable(x); cal != nil && len(ret.Results) == 1 {
+			return rc.inlineResult(x, cal, ret, 0, d)
+		}
 		var as []string
 		for _, a := range x.Call.Args {
 			as = append(as, rc.recipe(a, d+1))
@@ -136,6 +183,9 @@ func (rc *recipeCtx) recipe(v ssa.Value, d int) string {
 	case *ssa.BinOp:
 		return "(" + rc.recipe(x.X, d+1) + x.Op.String() + rc.recipe(x.Y, d+1) + ")"
 	case *ssa.Parameter:
+		if r, ok := rc.bind[x]; ok {
+			return r
+		}
 		if isRecordLike(x.Type()) {
 			return "REC"
 		}
@@ -291,6 +341,7 @@ func collectAppliers(c *Ctx, root *ssa.Function) []*applierOp {
 			op := &applierOp{callee: cal, call: call, fn: f}
 			op.ds, op.hasDS = facts["DS"]
 			op.flag, op.hasFlag = facts["FLAG"]
+			rc.opaque = false // only what the receiver and argument recipes could not render counts
 			op.recv = rc.recipe(call.Call.Args[0], 0)
 			for _, a := range call.Call.Args[1:] {
 				op.args = append(op.args, rc.recipe(a, 0))
